@@ -108,6 +108,7 @@ func isSpecTypesPkg(path string) bool {
 var keepNamed = map[string]bool{
 	"quorum.IsQuorum": true, "quorum.HasHonest": true, "quorum.CalcQuorumWeight": true, "quorum.CalcByzMaxWeight": true,
 	"quorum.GetWeights": true, "state.OlderThan": true,
+	"randomseed.CalculateRandomSeed": true, "randomseed.RandomSeedToBytes": true,
 }
 
 // spiPure: interface methods that are observationally pure (DESIGN §7 trusted base)
@@ -651,6 +652,26 @@ func (c *FCtx) load(addr ssa.Value, at *ssa.UnOp) *Term {
 		if isComplit(a) {
 			return c.Term(a)
 		}
+		// the most recent store in the same block (defer-spilled results, captured variables)
+		if at != nil {
+			blk := at.Block()
+			var last *ssa.Store
+			for _, in := range blk.Instrs {
+				if in == ssa.Instruction(at) {
+					break
+				}
+				if st, ok := in.(*ssa.Store); ok && st.Addr == a {
+					last = st
+				}
+			}
+			if last != nil {
+				return c.Term(last.Val)
+			}
+			// unique reaching store over all paths
+			if st := reachingStore(a, blk); st != nil {
+				return c.Term(st.Val)
+			}
+		}
 		// local variable cell: single store -> that value
 		var stores []*ssa.Store
 		for _, r := range *a.Referrers() {
@@ -672,6 +693,47 @@ func (c *FCtx) load(addr ssa.Value, at *ssa.UnOp) *Term {
 		}
 	}
 	return T("deref", "", c.Term(addr))
+}
+
+// reachingStore: the single store to the cell that reaches the entry of block b on every path (nil if none or several).
+func reachingStore(a *ssa.Alloc, b *ssa.BasicBlock) *ssa.Store {
+	var found *ssa.Store
+	ok := true
+	seen := map[*ssa.BasicBlock]bool{}
+	var visit func(blk *ssa.BasicBlock)
+	visit = func(blk *ssa.BasicBlock) {
+		if !ok || seen[blk] {
+			return
+		}
+		seen[blk] = true
+		var last *ssa.Store
+		for _, in := range blk.Instrs {
+			if st, isSt := in.(*ssa.Store); isSt && st.Addr == a {
+				last = st
+			}
+		}
+		if last != nil {
+			if found != nil && found != last {
+				ok = false
+			}
+			found = last
+			return
+		}
+		if len(blk.Preds) == 0 {
+			ok = false // reaches the entry without a store
+			return
+		}
+		for _, p := range blk.Preds {
+			visit(p)
+		}
+	}
+	for _, p := range b.Preds {
+		visit(p)
+	}
+	if !ok {
+		return nil
+	}
+	return found
 }
 
 func isComplit(a *ssa.Alloc) bool {
